@@ -12,7 +12,7 @@ from .. import tlc
 JD_OF_DN0 = 1721424.5      # JD = dn + 1721424.5 + sod/86400   (Calendar.tla: ToJD)
 JD_TOL = 1e-9              # days  (2 ulp of a Julian date; 86 microseconds)
 SEC_TOL = 1e-4             # seconds (scenario-second offsets, calendar seconds)
-CAP = 1_000_000_000        # integers handed to TLC stay below 2^31
+CAP = 2_000_000_000        # integers handed to TLC stay below 2^31 (12 days = 1.04e9 ms)
 
 
 def spec_fail(res, what):
